@@ -2564,6 +2564,28 @@ func ruleCppEnumUnderlyingType(c *core.Ctx) {
 		}
 		okFlags = fromBase || flagsViaLocal
 	}
+	if !okFlags {
+		// the flags declaration may live in a function of its own: any function of the package that prints the BaseFlags
+		// instantiation, with the argument either the base type itself or a let-bound local that starts out as the base type
+		for _, rs := range rowsOf {
+			for _, r := range rs {
+				if r.Kind != "emit" || !strings.Contains(r.Tmpl, "yardl::BaseFlags<%s") || len(r.Args) < 2 {
+					continue
+				}
+				posFlags = r.Pos
+				if strings.Contains(r.Args[1], "BaseType") {
+					okFlags = true
+				}
+				for _, v := range regexp.MustCompile(`\$\w+`).FindAllString(r.Args[1], -1) {
+					for _, o := range rs {
+						if o.Kind == "let:"+v && strings.Contains(o.Tmpl, "EnumDefinition.BaseType") && len(o.Guards) == 0 {
+							okFlags = true
+						}
+					}
+				}
+			}
+		}
+	}
 	c.Check(okEnum, rule, "enum class/underlying type clause", posEnum, "`: TypeSyntax(BaseType)` is emitted when the enum declares a base type",
 		"the emitted `enum class` has no `: <base>` clause for an enum that declares a base type: C++ falls back to int, WriteEnum writes a zig-zag varint where the schema (and every other language) says e.g. uint8/uint64 — values are encoded differently and large unsigned values do not fit")
 	c.Check(okFlags, rule, "flags/underlying type argument", posFlags, "yardl::BaseFlags receives TypeSyntax(BaseType) when the flags declare a base type",
